@@ -138,7 +138,7 @@ class C10(Prop):
 
     def strategy(self, tier):
         kinds = ('repo', 'stdlib3.12') if tier == 'quick' else ('repo', 'stdlib3.12', 'stdlib3.8')
-        return st.fixed_dictionaries({'code': V.candidates(kinds), 'version': T.version()})
+        return V.versioned_candidates(kinds)
 
     def enumerate(self, tier, seed):
         # whole stdlib files of each interpreter (thorough), a rotating sample (quick)
